@@ -199,6 +199,29 @@ pub struct Pt {
     y: String,
     z: Vec<u16>,
 }
+/// zero-sized payload whose serializer call is not `serialize_unit`
+#[derive(Clone, Copy, Debug, PartialEq)]
+struct Zs;
+impl Serialize for Zs {
+    fn serialize<S: Serializer>(&self, s: S) -> Result<S::Ok, S::Error> {
+        s.serialize_unit_struct("Zs")
+    }
+}
+impl<'de> Deserialize<'de> for Zs {
+    fn deserialize<D: Deserializer<'de>>(d: D) -> Result<Zs, D::Error> {
+        struct ZV;
+        impl<'de> Visitor<'de> for ZV {
+            type Value = Zs;
+            fn expecting(&self, f: &mut fmt::Formatter) -> fmt::Result {
+                f.write_str("unit struct Zs")
+            }
+            fn visit_unit<E: de::Error>(self) -> Result<Zs, E> {
+                Ok(Zs)
+            }
+        }
+        d.deserialize_unit_struct("Zs", ZV)
+    }
+}
 impl Serialize for Pt {
     fn serialize<S: Serializer>(&self, s: S) -> Result<S::Ok, S::Error> {
         let mut st = s.serialize_struct("Pt", 3)?;
@@ -810,6 +833,15 @@ fn run_mode(_tier: &str) -> Vec<Grid> {
     }
     ser_case(&mut g, "Arc<Arc<u8>>", &Arc::new(5u8));
     ser_case(&mut g, "Huge(8 KiB)", &Huge { tag: 3, pad: [3; 8192] });
+    // zero-sized payloads: the serializer calls still differ by type (unit / unit_struct / tuple(0) / tuple(2))
+    ser_case(&mut g, "()", &());
+    ser_case(&mut g, "PhantomData<u8>", &std::marker::PhantomData::<u8>);
+    ser_case(&mut g, "[u8;0]", &([] as [u8; 0]));
+    ser_case(&mut g, "((),())", &((), ()));
+    ser_case(&mut g, "Zs(unit struct)", &Zs);
+    // size ladder 8..256 bytes
+    macro_rules! ser_ladder { ($($n:literal)*) => { $( ser_case(&mut g, concat!("[u64;", $n, "]"), &[0x0101_0101_0101_0101u64 * $n; $n]); )* } }
+    ser_ladder!(1 2 4 8 9 16 17 32);
 
     let mut d = Grid::new("c17.deserialize", "input trees (well-formed and ill-typed) for each payload type x failure injected at each k-th deserializer callback; Arc<T>/UniqueArc<T> give Ok iff T does, equal value, count 1, exactly one extra allocation; on Err the same error and nothing left allocated");
     let s = |x: &str| V::S(x.to_string());
@@ -824,7 +856,22 @@ fn run_mode(_tier: &str) -> Vec<Grid> {
         de_case::<Pt>(&mut d, "Pt(struct)", inp);
         de_case::<En>(&mut d, "En(enum)", inp);
         de_case::<Huge>(&mut d, "Huge(8 KiB)", inp);
+        de_case::<()>(&mut d, "()", inp);
+        de_case::<std::marker::PhantomData<u8>>(&mut d, "PhantomData<u8>", inp);
+        de_case::<[u8; 0]>(&mut d, "[u8;0]", inp);
+        de_case::<((), ())>(&mut d, "((),())", inp);
+        de_case::<Zs>(&mut d, "Zs(unit struct)", inp);
     }
+    // size ladder 8..256 bytes: a well-formed sequence, one element short (fails late), one ill-typed element in the middle
+    macro_rules! de_ladder { ($($n:literal)*) => { $(
+        let full: Vec<V> = (0..$n as u64).map(V::U).collect();
+        let mut bad = full.clone();
+        bad[$n / 2] = s("x");
+        for inp in [V::Seq(full.clone()), V::Seq(full[..$n - 1].to_vec()), V::Seq(bad), V::Unit, s("text")] {
+            de_case::<[u64; $n]>(&mut d, concat!("[u64;", $n, "]"), &inp);
+        }
+    )* } }
+    de_ladder!(1 2 4 8 9 16 17 32);
     let mut ip = Grid::new("c17.in_place", "Deserialize::deserialize_in_place on Arc<T> (sole owner / shared with a sibling) and UniqueArc<T> x input tree x failure at each k-th callback: Ok leaves a fresh sole owner and the sibling untouched, Err leaves the place as it was, nothing leaks or is destroyed twice");
     let old_pt = Pt { x: 200, y: "old value kept on the heap".into(), z: vec![1, 2, 3] };
     for inp in &inputs {
